@@ -71,3 +71,32 @@ def delete_never_wins_over_pending_create(w: World):
     check(len(provider_writes()) == 0, "no provider write")
     check(r == FINISHED, "finished")
     check(sync.is_discarded, "the deletion entry is discarded")
+
+
+@lemma(props=["C02", "C03", "C12"], configs="sides", raises=["Exception"],
+       stubs={"cloudsync.sync.manager:SyncManager.handle_split_conflict": {"results": ["True", "False"]}})
+def upload_synced_effects(w: World):
+    """L3.1/L3.2: uploading changed content writes only to the synced side, only by upload to the entry's own peer
+    oid; on success both sides are recorded as synced (so the echo event finds nothing to do)"""
+    mgr = w.mgr
+    sync = w.entry("sync")
+    changed = w.changed
+    synced = w.synced
+    assume(sync[changed].temp_file is not None and len(sync[changed].temp_file) > 0)
+    # call-site facts (handle_hash_diff asserts the peer oid, download_changed asserts the changed oid)
+    assume(sync[synced].oid is not None and sync[changed].oid is not None)
+    peer_oid = sync[synced].oid
+    new_hash = sync[changed].hash
+    new_path = sync[changed].path
+    r = mgr.upload_synced(changed, sync)
+    ws = provider_writes()
+    check(len(ws) <= 1, "at most one provider write (conflict resolution aside)")
+    for c in ws:
+        check(c.side == synced, "writes only on the synced side")
+        check(c.method == "upload" and c.args[0] == peer_oid, "the write is an upload to the peer object")
+    if r is True and len(ws) == 1 and ws[0].ok:
+        info = ws[0].result
+        check(sync[synced].sync_hash == info.hash, "synced side: sync_hash is the uploaded hash")
+        check(sync[changed].sync_hash == new_hash, "changed side: sync_hash is its own hash")
+        check(sync[changed].sync_path == new_path, "changed side: sync_path is its own path")
+        check(sync[synced].sync_path is not None or info.path is None, "synced side has a sync_path")
